@@ -260,6 +260,28 @@ def run_minimize(cj, basis, params, cutmode, cutseed, validate):
         rec['after'] = circ_to_json(self)
         return out
     Circuit.replace_subcircuit = recording_replace
+    # record every cone with its simulation patterns, its assignment strings and its table with don't-cares
+    # (wrapper around the module-level function in this process only; no source hook)
+    import cirbo.minimization.subcircuit as SC
+    orig_edc = SC._eval_dont_cares
+    cones = []
+
+    def recording_edc(circuit, subcircuits):
+        out = orig_edc(circuit, subcircuits)
+        try:
+            from cirbo.core.logic import DontCare
+            cjs = circ_to_json(circuit)
+            for sc in out:
+                labs = list(sc.inputs) + [g for g in sc.gates if g not in sc.inputs]
+                cones.append({'c': cjs, 'inputs': list(sc.inputs), 'gates': list(sc.gates), 'outputs': list(sc.outputs),
+                              'patterns': [[l, int(sc.patterns[l])] for l in labs] if all(l in sc.patterns for l in labs) else None,
+                              'inputs_tt': list(sc.inputs_tt),
+                              'table': [[None if x is DontCare else bool(x) for x in row]
+                                        for row in sc.evaluate_truth_table_with_dont_cares()]})
+        except Exception as e:  # noqa: BLE001
+            cones.append({'record_error': err_name(e)})
+        return out
+    SC._eval_dont_cares = recording_edc
     try:
         c = circ_from_json(cj)
         before = circ_to_json(c)
@@ -267,11 +289,12 @@ def run_minimize(cj, basis, params, cutmode, cutseed, validate):
         if kw.get('solver_time_limit_sec') == 0:
             kw['solver_time_limit_sec'] = None
         res = minimize_subcircuits(c, basis, enable_validation=validate, **kw)
-        return {'ok': circ_to_json(res), 'arg_after': circ_to_json(c), 'arg_before': before, 'steps': steps}
+        return {'ok': circ_to_json(res), 'arg_after': circ_to_json(c), 'arg_before': before, 'steps': steps, 'cones': cones}
     except Exception as e:  # noqa: BLE001
-        return {'err': err_name(e), 'steps': steps}
+        return {'err': err_name(e), 'steps': steps, 'cones': cones}
     finally:
         Circuit.replace_subcircuit = orig_replace
+        SC._eval_dont_cares = orig_edc
         mw.CUT_HOOK = None
         mw.CUT_FILTER = None
 
@@ -371,6 +394,51 @@ def has_dead_logic(cj):
 _VAL = [0]
 
 
+def audit_cones(ctx, r, inp, limit=12):
+    """the tie of c04_cone_simulation_computes_the_cone / c04_dont_care_table_sound to the driver: every cone the driver
+    built is (i) closed (every operand of a simulated gate is a leaf or an earlier gate of the cone) with its outputs
+    inside the cone — the theorems' hypotheses —, and (ii) its patterns, its assignment strings and its table with
+    don't-cares are what the Lean model (Model/ConeTable.lean) computes from the circuit, the leaves and the cone"""
+    cones = r.get('cones') or []
+    reqs, code = [], []
+    for cone in cones[:limit]:
+        if 'record_error' in cone:
+            ctx.mismatch('min.cone.record', inp, cone['record_error'], None)
+            continue
+        cj = cone['c']
+        gates = {g[0]: g for g in cj['gates']}
+        leaves = cone['inputs'][::-1]
+        seen = set(leaves)
+        closed = len(set(leaves)) == len(leaves)
+        for nd in cone['gates']:
+            if nd in leaves:
+                continue
+            if nd not in gates or any(o not in seen for o in gates[nd][2]):
+                closed = False
+            seen.add(nd)
+        if not closed or any(o not in seen for o in cone['outputs']):
+            # a cut family that is not admissible (the theorem does not speak about it); the harness supplies only
+            # admissible ones, so this is reported
+            ctx.mismatch('min.cone.hypotheses', {'cone': cone}, 'cone is not closed under its leaves / output outside', None)
+            continue
+        ctx.count('cone')
+        ctx.count('cone_dc_rows:' + ('some' if any(x is None for row in cone['table'] for x in row) else 'none'))
+        reqs.append({'op': 'cone_table', 'c': cj, 'leaves': leaves, 'nodes': cone['gates'], 'outs': cone['outputs']})
+        code.append({'ok': {'patterns': cone['patterns'], 'reach': cone['inputs_tt'], 'table': cone['table']}})
+    if not reqs:
+        return
+    model = ctx.driver.ask_many(reqs)
+    for rq, a, b in zip(reqs, code, model):
+        if 'ok' in b and a['ok']['patterns'] is not None:
+            # the model lists leaves then nodes (a leaf that is also listed among the nodes twice): compare as a map
+            b = {'ok': dict(b['ok'], patterns=sorted(map(list, {(l, p) for l, p in b['ok']['patterns']})))}
+            a = {'ok': dict(a['ok'], patterns=sorted(a['ok']['patterns']))}
+        if a == b:
+            ctx.count('agree:cone_table')
+        else:
+            ctx.mismatch('cone_table', rq, a, b)
+
+
 def check_case(ctx, cj, basis, params, cutmode, cutseed, audit=True):
     inp = {'c': cj, 'basis': basis, 'params': params, 'cutmode': cutmode, 'cutseed': cutseed}
     want = tts(cj)
@@ -404,6 +472,7 @@ def check_case(ctx, cj, basis, params, cutmode, cutseed, audit=True):
     ctx.count('improved' if nontrivial(res) < nontrivial(cj) else 'same_size')
     if audit:
         audit_steps(ctx, cj, r, inp)
+        audit_cones(ctx, r, inp)
     _VAL[0] += 1
     if ctx.tier == 'thorough' and _VAL[0] % 3:
         return
